@@ -423,9 +423,14 @@ class BaseClientHandler:
         because they are no longer listening to the mailbox (but they will
         empty the list of pending expunges.
         """
+        # NOTE: Take the notifications off of the list before the push: while
+        #       we wait for a slow client to drain its socket other commands
+        #       may add more notifications, and those have to stay pending.
+        #
         if self.pending_notifications:
-            await self.client.push(*self.pending_notifications)
+            pending = self.pending_notifications
             self.pending_notifications = []
+            await self.client.push(*pending)
 
     ##################################################################
     #
